@@ -413,7 +413,7 @@ pub fn replay(w: &mut Worker, p: &Params, trace: &[Event], compare_scratch: bool
     }
     let mres = mres.unwrap();
     knobs::set_rollback_budget(Some(ROLLBACK_BOUND));
-    let res = util::catch(|| index.update());
+    let res = util::catch(|| util::watched(|| index.update()));
     let used = ROLLBACK_BOUND - knobs::rollback_budget().unwrap_or(0);
     knobs::set_rollback_budget(None);
     updates += 1;
